@@ -660,18 +660,21 @@ pub fn family(tier: &str) -> Vec<DefSpec> {
     let a3 = [(type_index("Pod4"), true), (type_index("OwnBox"), false), (type_index("OwnZ"), false)];
     match tier {
         "thorough" => {
-            let a6 = [
+            // about 1 600 definitions (four builds of them must fit the disk)
+            let a4 = [(type_index("Pod4"), true), (type_index("OwnBox"), false), (type_index("OwnZ"), false), (type_index("PodZ"), true)];
+            let a5 = [
                 (type_index("Pod4"), true),
-                (type_index("Own8"), false),
-                (type_index("OwnZ"), false),
-                (type_index("Pod8"), true),
-                (type_index("Own3"), false),
                 (type_index("OwnBox"), false),
+                (type_index("OwnZ"), false),
+                (type_index("Own3"), false),
+                (type_index("Pod8"), true),
             ];
-            v.extend(histories(&a6, &[2, 1], &[0], "h6x"));
-            v.extend(histories(&a3, &[2, 2], &[0], "h3y"));
-            v.extend(histories(&a3, &[2, 1, 1], &[0], "h3z"));
+            v.extend(histories(&a3, &[2, 1], &[0], "h3q"));
+            v.extend(histories(&a3, &[1, 2], &[0], "h3r"));
+            v.extend(histories(&a4, &[2, 1], &[0], "h4x"));
+            v.extend(histories(&a5, &[1, 1, 1], &[0], "h5z"));
             v.extend(histories(&a3, &[2, 1], &[1], "h3b"));
+            v.extend(histories(&a3, &[1, 1, 1], &[2], "h3a"));
         }
         _ => {
             v.extend(histories(&a3, &[2, 1], &[0], "h3q"));
